@@ -4,6 +4,7 @@ import DriverLib.C01
 import DriverLib.C02
 import DriverLib.C04
 import DriverLib.C05
+import DriverLib.C06
 import DriverLib.C07
 import DriverLib.C08
 import DriverLib.C09
@@ -22,6 +23,7 @@ def handlers : List (String → Json → Option R) := [
   Drv.C02.handle,
   Drv.C04.handle,
   Drv.C05.handle,
+  Drv.C06.handle,
   Drv.C07.handle,
   Drv.C08.handle,
   Drv.C09.handle,
